@@ -167,6 +167,8 @@ func (b *binding) emitGetP() {
 func (b *binding) emitSet() {
 	if b.isConst {
 		if b.isStrict || b.scope.c.scope.strict {
+			// an assignment in the temporal dead zone is a ReferenceError
+			b.emitGetP()
 			b.scope.c.emit(throwAssignToConst)
 		}
 		return
@@ -182,6 +184,8 @@ func (b *binding) emitSet() {
 func (b *binding) emitSetP() {
 	if b.isConst {
 		if b.isStrict || b.scope.c.scope.strict {
+			// an assignment in the temporal dead zone is a ReferenceError
+			b.emitGetP()
 			b.scope.c.emit(throwAssignToConst)
 		}
 		return
